@@ -64,10 +64,13 @@ theorem body_sim {T : List FEntry} {j b B k : Nat} {fd : FunDef} {cmds : List Cm
   refine ⟨?_, hsl⟩
   intro Tr c m vals fuel o c2 hsuf hnd hcf hmf hag hlen hb
   have hsufT : T <:+ Tr := (List.suffix_cons _ T).trans hsuf
-  obtain ⟨m1, ex1, hbind, hfr1, ho1, hfu1, har1, hsv1⟩ := params_sem j fd.params vals 0
+  obtain ⟨m1, ex1, hbind, hfr1, ho1, hfu1, har1, hsv1, harr1⟩ := params_sem j fd.params vals 0
     { m with args := vals.map Val.render, saved := [] } [] (fun _ => none) (by simp) rfl hlen (by intro x v h; cases h)
   have hinv : Inv ⟨true, j⟩ T { c with lenv := bindParams (fun _ => none) fd.params vals, inFn := true } m1 := by
-    refine ⟨⟨rfl, ?_, ?_, ?_⟩, ⟨Tr, hsufT, hnd, hcf, by rw [hfu1]; exact hmf⟩⟩
+    refine ⟨⟨rfl, ?_, ?_, ?_, ⟨?_, ?_, hag.hp.fresh⟩⟩, ⟨Tr, hsufT, hnd, hcf, by rw [hfu1]; exact hmf⟩⟩
+    rotate_left 3
+    · rw [hfr1 _ (fun a => special_ne_prefixed (x := "_dvc") (by decide) j a)]; exact hag.hp.dvc
+    · intro id; rw [harr1]; exact hag.hp.heap id
     · show c.out = m1.out
       rw [ho1]; exact hag.out
     · intro x v hx
@@ -97,6 +100,7 @@ theorem adv2_eq_adv3 (s : St) (new : List Line) (n m : Nat) : adv2 s new n m = a
 theorem adv3_adv3 (s : St) (a b : List Line) (n1 m1 f1 n2 m2 f2 : Nat) :
     adv3 (adv3 s a n1 m1 f1) b n2 m2 f2 = adv3 s (b ++ a) (n1 + n2) (m1 + m2) (f1 + f2) := by
   simp [adv3, Nat.add_assoc]
+theorem adv3_reqSt (s : St) (r : Req) (new : List Line) (n m fc : Nat) : adv3 (reqSt s r) new n m fc = reqSt (adv3 s new n m fc) r := rfl
 
 /-- translating a function definition at top level -/
 theorem funcdef_compile {T : List FEntry} (hT : TableOK T) (hst : TStat (tnames T) T) {s s' : St} (h0 : s.funcs = [])
@@ -104,7 +108,7 @@ theorem funcdef_compile {T : List FEntry} (hT : TableOK T) (hst : TStat (tnames 
     {name : String} {pub : Bool} {rets : List ValueType} {params : List Var} {body : List Stmt}
     (hgood : (params.all (fun p => goodName2 p.name)) = true) (hfr : fragSs (tnames T) body = true)
     (h : evalStmt conv (.funcDef name pub rets params body) s = .ok ((), s')) :
-    ∃ bodyCmds n mm, s' = adv3 s (flat (.fn name bodyCmds)).reverse n mm 1 ∧
+    ∃ bodyCmds n mm rq, s' = reqSt (adv3 s (flat (.fn name bodyCmds)).reverse n mm 1) rq ∧
       BodySim ⟨{ name := name, params := params, rets := rets, body := body }, bodyCmds, s.funcCounter + 1, s.forCounter + mm⟩ T ∧
       SL (Touched (s.funcCounter + 1) (s.forCounter + mm)) (Pref (s.funcCounter + 1)) (tnames T) (flats bodyCmds) := by
   unfold evalStmt at h
@@ -125,12 +129,12 @@ theorem funcdef_compile {T : List FEntry} (hT : TableOK T) (hst : TStat (tnames 
   have hctx1 : ctxOf s1 = ⟨true, s.funcCounter + 1⟩ := by simp [ctxOf, hin, hfc]
   have hctx : CtxOK ⟨true, s.funcCounter + 1⟩ T s.forCounter :=
     ⟨fun _ e he => by have := (hjb e he).1; show e.j < s.funcCounter + 1; omega, fun e he => (hjb e he).2⟩
-  obtain ⟨cmds, n, mm, e2, hlines, hsim⟩ := block_semF hT hctx body hfr s1 s2 hctx1 (by rw [hfo]; exact Nat.le_refl _) h2
+  obtain ⟨cmds, n, mm, rb, e2, hlines, hsim⟩ := block_semF hT hctx body hfr s1 s2 hctx1 (by rw [hfo]; exact Nat.le_refl _) h2
   have e3 := funcEnd_ok h3
   rw [hfo] at hlines
   obtain ⟨hbs, hsl⟩ := body_sim (fd := { name := name, params := params, rets := rets, body := body }) (B := s.forCounter) hst
     (fun e he => ⟨by have := (hjb e he).1; omega, by have := (hjb e he).2; omega⟩) hgood hlines hsim
-  refine ⟨_, n, mm, ?_, hbs, hsl⟩
+  refine ⟨_, n, mm, rb, ?_, hbs, hsl⟩
   have hpl : C02.paramLines s1 (params.map (·.name)) 0 = paramLinesF (s.funcCounter + 1) (params.map (·.name)) 0 := by
     rw [paramLines_ctx s1 hin, hfc]
   rw [e3, e2]
@@ -144,15 +148,15 @@ theorem funcdef_compile {T : List FEntry} (hT : TableOK T) (hst : TStat (tnames 
   · show s1.startCode = s.startCode; rw [← hc]
   · show Line.funcEnd :: ((flats cmds).reverse ++ s1.code) = _
     rw [hcode]
-    simp [adv3, flat, flats_append, flats_simples]
+    simp [adv3, reqSt, adv2, flat, flats_append, flats_simples]
   · show s1.varCounter + n = s.varCounter + n; rw [← hc]
   · show s1.forCounter + mm = s.forCounter + mm; rw [hfo]
   · show s1.fors = s.fors; rw [← hc]
   · show s1.funcs.tail = s.funcs; rw [← hc]; simp [h0]
   · show s1.funcCounter = s.funcCounter + 1; exact hfc
-  · show s1.sahReq = s.sahReq; rw [← hc]
-  · show s1.schReq = s.schReq; rw [← hc]
-  · show s1.sshReq = s.sshReq; rw [← hc]
+  · show (s1.sahReq || rb.sah) = (s.sahReq || rb.sah); rw [← hc]
+  · show (s1.schReq || rb.sch) = (s.schReq || rb.sch); rw [← hc]
+  · show (s1.sshReq || rb.ssh) = (s.sshReq || rb.ssh); rw [← hc]
 
 /-! ### the top level -/
 
@@ -163,7 +167,7 @@ structure TopInv (T : List FEntry) (c : SCfg) (m : Cfg) : Prop where
   mfuns : m.funs = shTable T
 
 theorem agreeF_top {k k' : Nat} {c : SCfg} {m : Cfg} (h : AgreeF ⟨false, k⟩ c m) : AgreeF ⟨false, k'⟩ c m :=
-  ⟨h.inFn, h.out, h.glob, fun hin => by cases hin⟩
+  ⟨h.inFn, h.out, h.glob, (fun hin => by cases hin), h.hp⟩
 
 /-- what a top-level piece of the program achieves -/
 def ProgSim (T : List FEntry) (p : List Stmt) (cmds : List Cmd) : Prop :=
@@ -195,11 +199,11 @@ theorem src_funcDef {fuel : Nat} {name : String} {pub : Bool} {rets : List Value
 
 theorem prog_semF : ∀ (p : List Stmt) (T : List FEntry) (s s' : St), fragP (tnames T) p = true → TableOK T → TStat (tnames T) T →
     (tnames T).Nodup → s.funcs = [] → (∀ e ∈ T, e.j ≤ s.funcCounter ∧ e.b ≤ s.forCounter) → evalStmts conv p s = .ok ((), s') →
-    ∃ cmds n mm fc, s' = adv3 s (flats cmds).reverse n mm fc ∧ ProgSim T p cmds
+    ∃ cmds n mm fc rq, s' = reqSt (adv3 s (flats cmds).reverse n mm fc) rq ∧ ProgSim T p cmds
   | [], T, s, s', _, _, _, _, _, _, h => by
     unfold evalStmts at h
     obtain ⟨_, es⟩ := pure_ok h
-    refine ⟨[], 0, 0, 0, by rw [es]; simp [adv3, flats], ?_⟩
+    refine ⟨[], 0, 0, 0, Req.none, by rw [es, reqSt_none]; simp [adv3, flats], ?_⟩
     intro fuel c o c' hs m hi
     cases fuel with
     | zero => simp [execSs] at hs
@@ -212,7 +216,7 @@ theorem prog_semF : ∀ (p : List Stmt) (T : List FEntry) (s s' : St), fragP (tn
     obtain ⟨_, s1, h1, h2⟩ := bind_ok h
     rcases fragP_cons hf with ⟨name, pub, rets, params, body, rfl, hnew, hgood, hfb, hfrest⟩ | ⟨hfs, hfrest⟩
     · -- a function definition
-      obtain ⟨bodyCmds, n, mm, e1, hbs, hsl⟩ := funcdef_compile hT hst h0 hjb hgood hfb h1
+      obtain ⟨bodyCmds, n, mm, r1, e1, hbs, hsl⟩ := funcdef_compile hT hst h0 hjb hgood hfb h1
       let e : FEntry := ⟨{ name := name, params := params, rets := rets, body := body }, bodyCmds, s.funcCounter + 1, s.forCounter + mm⟩
       have hT' : TableOK (e :: T) :=
         ⟨hbs, hT, fun e' he' => ⟨by have := (hjb e' he').1; show e'.j < s.funcCounter + 1; omega,
@@ -240,9 +244,9 @@ theorem prog_semF : ∀ (p : List Stmt) (T : List FEntry) (s s' : St), fragP (tn
         · exact ⟨by rw [hc1]; exact Nat.le_refl _, by rw [hc2]; exact Nat.le_refl _⟩
         · have := hjb e' he'
           exact ⟨by rw [hc1]; omega, by rw [hc2]; omega⟩
-      obtain ⟨cmds, n2, mm2, fc2, e2, sim2⟩ := prog_semF rest (e :: T) s1 s' (by rw [hnames]; exact hfrest) hT' hst' hnd' h01 hjb' h2
-      refine ⟨.fn name bodyCmds :: cmds, n + n2, mm + mm2, 1 + fc2, ?_, ?_⟩
-      · rw [e2, e1, adv3_adv3]
+      obtain ⟨cmds, n2, mm2, fc2, r2, e2, sim2⟩ := prog_semF rest (e :: T) s1 s' (by rw [hnames]; exact hfrest) hT' hst' hnd' h01 hjb' h2
+      refine ⟨.fn name bodyCmds :: cmds, n + n2, mm + mm2, 1 + fc2, r1.or r2, ?_, ?_⟩
+      · rw [e2, e1, adv3_reqSt, reqSt_reqSt, adv3_adv3]
         simp [flats]
       · intro fuel c o c' hs m hi
         have hin : c.inFn = false := hi.agree.inFn
@@ -251,7 +255,7 @@ theorem prog_semF : ∀ (p : List Stmt) (T : List FEntry) (s s' : St), fragP (tn
         · obtain ⟨_, rfl⟩ := src_funcDef hin hs1
           have hi' : TopInv (e :: T) { c with funs := { name := name, params := params, rets := rets, body := body } :: c.funs }
               { m with funs := (name, bodyCmds) :: m.funs } :=
-            ⟨⟨hi.agree.inFn, hi.agree.out, hi.agree.glob, fun hin => by cases hin⟩,
+            ⟨⟨hi.agree.inFn, hi.agree.out, hi.agree.glob, (fun hin => by cases hin), ⟨hi.agree.hp.dvc, hi.agree.hp.heap, hi.agree.hp.fresh⟩⟩,
              by show _ :: c.funs = _; rw [hi.sfuns]; rfl, by show _ :: m.funs = _; rw [hi.mfuns]; rfl⟩
           obtain ⟨m', o', ex, hor, hout⟩ := sim2 f2 _ o c' hs2 _ hi'
           exact ⟨m', o', ExecCmds.cons ExecCmd.fnDef ex, hor, hout⟩
@@ -259,7 +263,7 @@ theorem prog_semF : ∀ (p : List Stmt) (T : List FEntry) (s s' : St), fragP (tn
       have hin : inFunction s = false := by simp [inFunction, h0]
       have hctx : CtxOK (ctxOf s) T s.forCounter :=
         ⟨fun hi => by simp [ctxOf, hin] at hi, fun e he => (hjb e he).2⟩
-      obtain ⟨cmds1, n, mm, e1, _, sim1⟩ := stmt_semF hT hctx st hfs s s1 rfl (Nat.le_refl _) h1
+      obtain ⟨cmds1, n, mm, r1, e1, _, sim1⟩ := stmt_semF hT hctx st hfs s s1 rfl (Nat.le_refl _) h1
       have h01 : s1.funcs = [] := by rw [e1]; exact h0
       have hjb' : ∀ e' ∈ T, e'.j ≤ s1.funcCounter ∧ e'.b ≤ s1.forCounter := by
         intro e' he'
@@ -267,9 +271,9 @@ theorem prog_semF : ∀ (p : List Stmt) (T : List FEntry) (s s' : St), fragP (tn
         have hc2 : s1.forCounter = s.forCounter + mm := by rw [e1]; rfl
         have := hjb e' he'
         exact ⟨by rw [hc1]; exact this.1, by rw [hc2]; omega⟩
-      obtain ⟨cmds, n2, mm2, fc2, e2, sim2⟩ := prog_semF rest T s1 s' hfrest hT hst hnd h01 hjb' h2
-      refine ⟨cmds1 ++ cmds, n + n2, mm + mm2, 0 + fc2, ?_, ?_⟩
-      · rw [e2, e1, adv2_eq_adv3, adv3_adv3, flats_append, List.reverse_append]
+      obtain ⟨cmds, n2, mm2, fc2, r2, e2, sim2⟩ := prog_semF rest T s1 s' hfrest hT hst hnd h01 hjb' h2
+      refine ⟨cmds1 ++ cmds, n + n2, mm + mm2, 0 + fc2, r1.or r2, ?_, ?_⟩
+      · rw [e2, e1, adv2_eq_adv3, adv3_reqSt, reqSt_reqSt, adv3_adv3, flats_append, List.reverse_append]
       · intro fuel c o c' hs m hi
         have hctxeq : ctxOf s = ⟨false, s.funcCounter⟩ := by simp [ctxOf, hin]
         have hinv : Inv (ctxOf s) T c m := by
